@@ -220,7 +220,7 @@ fn check_ints(ctx: &mut Ctx, st: ScalarType, ints: &[u128]) {
     }
 }
 
-fn rand_nested_type(rng: &mut Rng, depth: u32) -> Type {
+pub fn rand_nested_type(rng: &mut Rng, depth: u32) -> Type {
     let st = *rng.pick(&ALL_ST);
     if depth == 0 || rng.chance(2, 5) {
         return if rng.bool() {
